@@ -521,6 +521,11 @@ class TensorDict(TensorDictBase):
                 )
 
             def convert_type(x, y):
+                if x is y:
+                    # untouched by the pre-hooks: keep the very same object (re-wrapping it
+                    # would hand the module a new Parameter/Buffer object, and a with-block
+                    # would not give the module its own parameters back on exit)
+                    return x
                 if isinstance(y, nn.Parameter):
                     return nn.Parameter(x)
                 if isinstance(y, Buffer):
